@@ -287,6 +287,10 @@ def gen_mul(rng, cv, sysname, count, part=None):
                 kk = abs(kk) & ((1 << 64) - 1)
             P = rng.choice(pool + [cv.g])
             out.append("edm %s %d %s %s" % (v, rng.below(2), ptok(rng, cv, P, "" if v.startswith("fix") else rp), hx(kk)))
+        if v != "dig" and mine(len(v)):
+            for kk in (-2, -(3 + rng.below(17)), -((1 << 63) + rng.below(1 << 20))):
+                for al in (0, 1):
+                    out.append("edm %s %d %s %s" % (v, al, ptok(rng, cv, rng.choice(pool + [cv.g]), "" if v.startswith("fix") else rp), hx(kk)))
     for v in SIM:
         for cls in range(NCLASS):
             if not mine(cls + len(v)):
